@@ -61,7 +61,7 @@ func init() {
 			"a layout name ending in .vuego that does not exist relative to the current file although layouts/<name> exists is not judged (docs: explicit paths are used as-is; statement: relative before layouts/); likewise a layouts/ fallback that only exists after path cleaning (../x)",
 			"inside a layout, a key defined by that layout's own front-matter is not judged (precedence of sources is C08); a key defined only by an earlier layout's front-matter is not judged (the statement does not say whether layout front-matter accumulates)",
 			"a named layout whose file does not exist must make the render fail with nothing written (the chain cannot be rendered, and only an outermost result may be written)",
-			"layout values that are not plain non-empty strings, a layout key supplied through Fill data, and layout front-matter defining `content` are outside the statement and not generated",
+			"layout values that are not plain non-empty strings and layout front-matter defining `content` are outside the statement and not generated; a layout key supplied through Fill data is generated only in the datalayout part, where the page alone and the chain named by the key are both accepted and only an error or another nest is a violation",
 		},
 	})
 }
@@ -72,6 +72,7 @@ func (p *c07) Rule() string {
 		"chain part: straight chains of n layouts, every n in 1..102 plus 150 (thorough: plus 200) for layouts/ placement and a subset (thorough: all) for relative placement with decoys in layouts/, default-base start, and explicit .vuego names; " +
 		"cycle part: cycles of length 1-4 entered after 0-3 links x {layouts/, relative, started by the default base, closing through the page, explicit .vuego names}; " +
 		"keys part: for keys ka and title every subset of defining sources {Fill, page front-matter, first layout, second layout} (16x16) x Fill kind {none,map,struct,*struct} x {named chain p->a->b, default chain p->base->a}, other keys and `content` random; " +
+		"datalayout part: page without a front-matter layout, no layouts/base.vuego, Fill data carrying layout in {a (chain a->b), b, a.vuego} x page in {p, sub/p} x page front-matter {keys, empty block}: no error, and the nest is the page alone or the chain the key names; " +
 		"rand part: seeded random file trees over {.,sub,layouts} x {a,b,c,base,p,q} with plain, ./, ../, dir/ and .vuego layout names, random front-matter keys, document-style bodies and Fill kinds. " +
 		"Every case is rendered through Load(page).Fill(data).Render and Fill(data).RenderFile(page). non-trivial = the reference predicts at least one layout link or an error; distinct by the whole case"
 }
@@ -489,7 +490,36 @@ func c07RandCase(r *core.RNG) c07Case {
 func (p *c07) nRand(ctx core.Ctx) int { return ctx.Pick(3000, 40000) }
 
 func (p *c07) Plan(ctx core.Ctx) int {
-	return len(c07GraphList()) + len(c07ChainSpecs(ctx)) + len(c07CycleSpecs()) + c07NKeys + p.nRand(ctx)
+	return len(c07GraphList()) + len(c07ChainSpecs(ctx)) + len(c07CycleSpecs()) + c07NKeys + c07NDataLayout + p.nRand(ctx)
+}
+
+// datalayout part: the page's front-matter names no layout, layouts/base.vuego
+// does not exist, and the data passed to Fill carries a `layout` key. The
+// statement does not say whether such a key makes the page "name a layout", so
+// both readings are accepted (page alone, or the chain the key names); what it
+// does rule out is the default being applied although its file does not exist.
+const c07NDataLayout = 2 * 3 * 2
+
+func c07DataLayoutCase(i int) c07Case {
+	pageDir := []string{"", "sub/"}[i%2]
+	target := []string{"a", "b", "a.vuego"}[(i/2)%3]
+	withPtr := (i/6)%2 == 1
+	c := c07Case{Part: "datalayout", Shape: fmt.Sprintf("page=%sp/layout=%s", pageDir, target), Page: pageDir + "p.vuego", FillKind: "map",
+		Fill: map[string]string{"layout": target, "kf": "fill:kf"}}
+	c.Files = []c07File{
+		{Path: pageDir + "p.vuego", FM: map[string]string{"kp": "fm0:kp"}},
+		{Path: "layouts/a.vuego", Layout: "b"},
+		{Path: "layouts/b.vuego"},
+		{Path: "layouts/a.vuego.vuego"},
+	}
+	if target == "a.vuego" {
+		c.Files = append(c.Files, c07File{Path: pageDir + "a.vuego"})
+	}
+	if withPtr {
+		c.Files[0].Style = "emptyfm"
+		c.Files[0].FM = nil
+	}
+	return c
 }
 
 func (p *c07) Gen(ctx core.Ctx, i int) any {
@@ -511,6 +541,11 @@ func (p *c07) Gen(ctx core.Ctx, i int) any {
 	}
 	if i < c07NKeys {
 		return c07KeysCase(ctx, i, r)
+	} else {
+		i -= c07NKeys
+	}
+	if i < c07NDataLayout {
+		return c07DataLayoutCase(i)
 	}
 	return c07RandCase(r)
 }
@@ -852,6 +887,9 @@ func (p *c07) Exec(ctx core.Ctx, cc any) core.Obs {
 		files[f.Path] = c07Source(f)
 	}
 	fsys := memFS(files)
+	if c.Part == "datalayout" {
+		return c07ExecDataLayout(c, fsys, files)
+	}
 	if exp.Outcome != "ok" || len(exp.Chain) > 1 {
 		o.NT(mustJSON(c))
 	}
@@ -904,6 +942,50 @@ func (p *c07) Exec(ctx core.Ctx, cc any) core.Obs {
 	o.Cell("fill/" + c.FillKind)
 	if c.Part == "keys" && strings.HasPrefix(c.Shape, "named/struct") && len(c.Fill) == 3 {
 		o.Sample = map[string]any{"files": files, "page": c.Page, "fill": c.Fill, "expected_chain": c07ExpTree(c, exp.Chain)}
+	}
+	return o
+}
+
+func c07ExecDataLayout(c c07Case, fsys fs.FS, files map[string]string) core.Obs {
+	var o core.Obs
+	o.NT(mustJSON(c))
+	o.Cell("part/datalayout")
+	o.Cell("datalayout/" + c.Shape)
+	alone := c07Reference(c)
+	named := c
+	named.Files = append([]c07File(nil), c.Files...)
+	named.Files[c07Index(c)[c.Page]].Layout = c.Fill["layout"]
+	chain := c07Reference(named)
+	accept := []string{c07ExpTree(c, alone.Chain)}
+	if chain.Outcome == "ok" {
+		accept = append(accept, c07ExpTree(c, chain.Chain))
+	}
+	for _, entry := range []string{"render", "renderfile"} {
+		out, err, iters, _ := c07Run(c, fsys, entry)
+		o.Evals++
+		o.Count("layout_iter_events", int64(iters))
+		if err != nil {
+			sig := "datalayout/error"
+			if strings.Contains(err.Error(), "layouts/base.vuego") {
+				sig = "datalayout/default-applied-although-file-missing"
+			}
+			o.Fail(c, sig+"/"+entry, "page without a front-matter layout, no layouts/base.vuego, Fill data layout=%q: render failed with %v (files %v)", c.Fill["layout"], err, sortedKeys(files))
+			continue
+		}
+		got := c07TreeString(c07Forest(oracle.ParseAuto(out)))
+		ok := false
+		for _, a := range accept {
+			if got == a {
+				ok = true
+			}
+		}
+		if !ok {
+			o.Fail(c, "datalayout/wrong-nest/"+entry, "got nest %s, accepted %v\noutput: %s", got, accept, clip(out, 600))
+		} else if got == accept[0] {
+			o.Cell("datalayout/observed/page-alone")
+		} else {
+			o.Cell("datalayout/observed/chain-named-by-data")
+		}
 	}
 	return o
 }
